@@ -4,6 +4,7 @@ import (
 	"encoding/json"
 	"errors"
 	"fmt"
+	"sort"
 )
 
 // FaultSpec names one misbehaviour of one service call: kind x service x per-service call number
@@ -15,6 +16,15 @@ type FaultSpec struct {
 	Pos  int    `json:"pos"`
 	// payload of kind "errors"
 	Errors []map[string]interface{} `json:"errors,omitempty"`
+	// Match, when set, selects the position by the identity of the sub-request (text | variables)
+	// instead of Pos: the order of the requests inside a batch may legitimately vary (C13)
+	Match string `json:"match,omitempty"`
+}
+
+// Identity of a sub-request as used by FaultSpec.Match.
+func Identity(query string, vars map[string]interface{}) string {
+	b, _ := json.Marshal(vars)
+	return query + " | " + string(b)
 }
 
 // FailureSignals are the kinds after which the client must see a non-empty `errors`.
@@ -32,14 +42,20 @@ var AllFaultKinds = []string{
 func mutateFirst(v interface{}, pred func(interface{}) bool, repl func(interface{}) interface{}) bool {
 	switch x := v.(type) {
 	case map[string]interface{}:
-		for k, e := range x {
-			if k != "id" && k != "__typename" && pred(e) {
+		// sorted keys: the same fault must alter the same place on every execution (C13)
+		keys := make([]string, 0, len(x))
+		for k := range x {
+			keys = append(keys, k)
+		}
+		sort.Strings(keys)
+		for _, k := range keys {
+			if e := x[k]; k != "id" && k != "__typename" && pred(e) {
 				x[k] = repl(e)
 				return true
 			}
 		}
-		for _, e := range x {
-			if mutateFirst(e, pred, repl) {
+		for _, k := range keys {
+			if mutateFirst(x[k], pred, repl) {
 				return true
 			}
 		}
@@ -61,6 +77,17 @@ func (f FaultSpec) Apply(applied *bool) Fault {
 			return 0, nil, nil, false
 		}
 		pos := f.Pos
+		if f.Match != "" {
+			pos = -1
+			for i, r := range reqs {
+				if Identity(r.Query, r.Variables) == f.Match {
+					pos = i
+				}
+			}
+			if pos < 0 {
+				return 0, nil, nil, false
+			}
+		}
 		if pos >= len(honest) {
 			pos = len(honest) - 1
 		}
